@@ -49,8 +49,8 @@ def strategy():
       st.tuples(st.just('suggest'), worker, st.integers(1, 3),
                 st.sampled_from(['raw', 'client'])),
       st.tuples(st.just('complete'), tid),
-      st.tuples(st.just('early_stop'), tid),
-      st.tuples(st.just('early_stop'), tid),
+      st.tuples(st.just('early_stop'), tid, st.sampled_from(['raw', 'client'])),
+      st.tuples(st.just('early_stop'), tid, st.sampled_from(['raw', 'client'])),
       st.tuples(st.just('list')),
   ).map(list)
   return st.fixed_dictionaries({
@@ -235,10 +235,17 @@ def check(case):
         spec = plan.es[idx] if idx < len(plan.es) else 'ok:False'
         before = plan.es_calls
         reported = None
+        via = op[2] if len(op) > 2 else 'raw'
         try:
-          s.CheckTrialEarlyStoppingState(
-              vsp.CheckTrialEarlyStoppingStateRequest(
-                  trial_name=sm.tname(owner, 's', tid)))
+          if via == 'client':
+            # the worker-side library call: a failing algorithm must not be
+            # turned into an ordinary "do not stop" answer
+            out.cls('early_stop_via_client')
+            vizier_client.VizierClient(name, 'w1', s).should_trial_stop(tid)
+          else:
+            s.CheckTrialEarlyStoppingState(
+                vsp.CheckTrialEarlyStoppingStateRequest(
+                    trial_name=sm.tname(owner, 's', tid)))
         except Exception as e:  # pylint: disable=broad-except
           reported = type(e).__name__
         invoked = plan.es_calls > before
@@ -300,7 +307,8 @@ def families(tier):
                   required_classes=('suggest_exception', 'short_delivery',
                                     'policy_factory_exception',
                                     'tz_America', 'tz_Asia',
-                                    'early_stop_exception', 'local',
+                                    'early_stop_exception',
+                                    'early_stop_via_client', 'local',
                                     'distributed', 'ram', 'sqlmem',
                                     'fault_then_same_worker_suggest')),
   ]
